@@ -32,6 +32,32 @@ type boundsConfig struct {
 	liftCache  map[string]liftResult
 }
 
+// excFor looks an exception up by the α-renamed key of the site; a listed key may end its index part with
+// '*' (see constructMatches) so that b[j], b[j+1], b[j+2] of one counting argument are one exception.
+func (cfg *boundsConfig) excFor(ekey string) (string, bool) {
+	if why, ok := cfg.exc[ekey]; ok {
+		return why, true
+	}
+	for pat, why := range cfg.exc {
+		if strings.Contains(pat, "*") && constructMatches(pat, ekey) {
+			return why, true
+		}
+	}
+	return "", false
+}
+
+func (cfg *boundsConfig) markUsed(ekey string) {
+	if _, ok := cfg.exc[ekey]; ok {
+		cfg.usedExc[ekey] = true
+		return
+	}
+	for pat := range cfg.exc {
+		if strings.Contains(pat, "*") && constructMatches(pat, ekey) {
+			cfg.usedExc[pat] = true
+		}
+	}
+}
+
 func runBounds(r *Run, cfg boundsConfig) {
 	if cfg.maxDepth == 0 {
 		cfg.maxDepth = 3
@@ -56,8 +82,8 @@ func runBounds(r *Run, cfg boundsConfig) {
 			ekey := fi.Name() + "#" + alphaStr(fi.Pkg.TypesInfo, st.Node) // exception key: locals α-renamed
 			if len(st.Goals) == 0 {
 				// not linear
-				if why, ok := cfg.exc[ekey]; ok {
-					cfg.usedExc[ekey] = true
+				if why, ok := cfg.excFor(ekey); ok {
+					cfg.markUsed(ekey)
 					r.Ob(cfg.rule, construct, st.Node.Pos()).OK("reviewed exception: %s", why)
 				} else {
 					r.Ob(cfg.rule, construct, st.Node.Pos()).Unknown("index expression is not linear in tracked terms (%s); needs review", strings.Join(st.GoalDs, "; "))
@@ -79,8 +105,8 @@ func runBounds(r *Run, cfg boundsConfig) {
 				r.Ob(cfg.rule, construct, st.Node.Pos()).OK("%s", strings.Join(facts, "; "))
 				continue
 			}
-			if why, ok := cfg.exc[ekey]; ok {
-				cfg.usedExc[ekey] = true
+			if why, ok := cfg.excFor(ekey); ok {
+				cfg.markUsed(ekey)
 				r.Ob(cfg.rule, construct, st.Node.Pos()).OK("reviewed exception: %s", why)
 				continue
 			}
@@ -313,8 +339,8 @@ func (ba *boundsAnalysis) lift1(r *Run, cfg *boundsConfig, fi *FuncInfo, site as
 			}
 			inst, ok := cbf.instantiate(bf, pre, c)
 			if !ok {
-				if why, has := cfg.exc[ekey]; has {
-					cfg.usedExc[ekey] = true
+				if why, has := cfg.excFor(ekey); has {
+					cfg.markUsed(ekey)
 					notes = append(notes, fmt.Sprintf("%s: reviewed exception: %s", ckey, why))
 					continue
 				}
@@ -330,8 +356,8 @@ func (ba *boundsAnalysis) lift1(r *Run, cfg *boundsConfig, fi *FuncInfo, site as
 				notes = append(notes, fmt.Sprintf("%s ⊢ %s ≤ 0 ⇐ %s", ckey, prettyLin(inst), fact))
 				continue
 			}
-			if why, has := cfg.exc[ekey]; has {
-				cfg.usedExc[ekey] = true
+			if why, has := cfg.excFor(ekey); has {
+				cfg.markUsed(ekey)
 				notes = append(notes, fmt.Sprintf("%s: reviewed exception: %s", ckey, why))
 				continue
 			}
